@@ -36,6 +36,8 @@ func (c03) Info(tier string) fw.Info {
 		Level: "exploration",
 		Rule: "base programs: hand-written marked programs covering every construct (with mainShallExist both ways), seeded type-directed random programs, shipped corpus programs accepted today; " +
 			"control-flow programs (flow.go): statement bodies placed at every position that requires a value (function, closure, block, if/else, match arm, try/catch), judged by a reference model of which blocks can complete; " +
+			"global-initialiser programs (ginit.go): constant expression trees (list/object/option literals, operators, casts, indexing, empty list and none under an annotation) as global initialisers, every node of every tree replaced in turn by a global use / a call (reference model: constant iff every sub-expression is), with the same mutated trees as local lets in the base as control; " +
+			"container-member programs (members.go): every element-typed member of lists and options on pairs of receivers whose element types share their kind but differ inside, in every receiver form, with the value/annotation of the sibling receiver as near-miss mutant; " +
 			"each base must get 0 error diagnostics and the recorded type of every marked let initialiser must equal the generator's/author's type; " +
 			"every single-fault mutant (one mutator per rule of DESIGN Appendix H x every marked position of the base) must get >= 1 error diagnostic or syntax error. " +
 			"non-trivial = the base program was judged as expected (accepted, or rejected for the required-main cases) and, unless the case is accept-only, at least one mutant was analysed; " +
@@ -208,6 +210,32 @@ func rejectedItem(src drive.Sources, out drive.AnalyzeOut) string {
 	return ""
 }
 
+// rejectedLine renders the source line of the first error diagnostic (smallest position).
+func rejectedLine(src drive.Sources, out drive.AnalyzeOut) string {
+	if len(out.Syntax) > 0 {
+		return ""
+	}
+	best := -1
+	for i, d := range out.Diags {
+		if d.Level != diagnostic.DiagnosticLevelError {
+			continue
+		}
+		if best < 0 || d.Span.Start.Line < out.Diags[best].Span.Start.Line ||
+			d.Span.Start.Line == out.Diags[best].Span.Start.Line && d.Span.Start.Column < out.Diags[best].Span.Start.Column {
+			best = i
+		}
+	}
+	if best < 0 {
+		return ""
+	}
+	d := out.Diags[best]
+	lines := strings.Split(src[d.Span.Filename], "\n")
+	if l := int(d.Span.Start.Line); l >= 1 && l <= len(lines) {
+		return "; line: " + util.Clip(strings.TrimSpace(lines[l-1]), 300)
+	}
+	return ""
+}
+
 func hasTag(tags []string, t string) bool {
 	for _, x := range tags {
 		if x == t {
@@ -305,6 +333,9 @@ func (c03) Run(c fw.Case) (res fw.Result) {
 		if p.Group == "flow" {
 			// many small functions per program: show the one the first error points into
 			text += rejectedItem(base, out)
+		} else if p.Group == "members" || p.Group == "ginit" {
+			// one long function / many globals per program: show the line the first error points at
+			text += rejectedLine(base, out)
 		}
 		subs = append(subs, fw.SubViolation{
 			Sig:    "rejected-base:" + p.Construct + ":" + class,
@@ -391,8 +422,14 @@ func (c03) Run(c fw.Case) (res fw.Result) {
 			continue
 		}
 		if mo.Errors == 0 {
+			sigCtx := m.Ctx
+			if p.Group == "ginit" {
+				// the context of a tree node is the whole path from the root; the signature keeps the
+				// position and its parent only
+				sigCtx = ginitSigCtx(sigCtx)
+			}
 			subs = append(subs, fw.SubViolation{
-				Sig:    "accepted-mutant:" + m.Rule + ":" + m.Ctx,
+				Sig:    "accepted-mutant:" + m.Rule + ":" + sigCtx,
 				Why:    fmt.Sprintf("ill-typed mutant of %s got no error diagnostic: rule %s, context %s, %s%s", p.Name, m.Rule, m.Ctx, m.Desc, mutatedItem(base[m.Module], m.Source)),
 				Detail: map[string]any{"module": m.Module, "mutant": m.Source, "rule": m.Rule, "ctx": m.Ctx, "desc": m.Desc, "tags": m.Tags},
 			})
